@@ -400,6 +400,9 @@ func c01Variants() []c01Variant {
 			dcfg{{Sources: []dacc{aMfee}, Primary: aMAIN, Shares: []dshare{{u2, "0.3"}}, Burn: "0.01"}, {Sources: []dacc{aMAIN}, Primary: aMgeb, Shares: []dshare{{u2, "0.333333333333333333"}}, Burn: "0.5"}}.Params(), false},
 		{"linear / several bank sources", mintCfg{Periods: []mp{{Kind: ref.Linear, Amount: "300", End: 30 * time.Second}, {Kind: ref.NoMint}}},
 			dcfg{{Sources: []dacc{aMfee, u1, aMAIN}, Primary: aMgeb, Shares: []dshare{{u2, "0.05"}, {aBlocked(), "0.333333333333333333"}}, Burn: "0.2"}}.Params(), false},
+		// destinations that are other modules' own accounts (anything in maccPerms passes validation)
+		{"linear / shares to the minter's and the vesting module's accounts", mintCfg{Periods: []mp{{Kind: ref.Linear, Amount: "600", End: 30 * time.Second}, {Kind: ref.NoMint}}},
+			dcfg{{Sources: []dacc{aMAIN}, Primary: aMgeb, Shares: []dshare{{dacc{dtypes.ModuleAccount, mtypes.ModuleName}, "0.1"}, {dacc{dtypes.ModuleAccount, vtypes.ModuleName}, "0.05"}}, Burn: "0.01"}}.Params(), false},
 	}
 }
 
